@@ -38,7 +38,7 @@ type Pkg struct {
 
 type Vector struct {
 	ID     string          `json:"id"`
-	Op     string          `json:"op"` // tl: codec | call | reqdec ; tlb: encode
+	Op     string          `json:"op"` // tl: codec | call | reqdec | reject ; tlb: encode
 	Target string          `json:"target"`
 	Value  json.RawMessage `json:"value"`
 	RefHex string          `json:"ref_hex,omitempty"`   // codec: reference bytes to decode; reqdec: request bytes
@@ -257,6 +257,27 @@ func runTL(p Pkg, in SchemaIn, emit func(Event)) {
 				ev.UnmarshalErr = "result does not map back: " + err.Error()
 			} else {
 				ev.Decoded = rtl.ToJSON(back)
+			}
+		case "reject":
+			gt, gname, c, _, ok := TLGoType(p, s, v.Target)
+			if !ok {
+				ev.Fail = "no generated Go type for " + v.Target
+				break
+			}
+			ev.GoType = gname
+			ref, _ := hex.DecodeString(v.RefHex)
+			dv := reflect.New(gt)
+			rd := bytes.NewReader(ref)
+			guard(&ev, func() {
+				if err := ttl.Unmarshal(rd, dv.Interface()); err != nil {
+					ev.UnmarshalErr = err.Error()
+				}
+			})
+			ev.Unread = rd.Len()
+			if ev.Panic == "" && ev.UnmarshalErr == "" {
+				if back, err := bind.ExtractObject(s, c, dv.Elem()); err == nil {
+					ev.Decoded = rtl.ToJSON(back)
+				}
 			}
 		case "reqdec":
 			f := s.Function(v.Target)
